@@ -5,12 +5,19 @@ import Verif.C04.Generated
 Hypotheses supplied by the world (never axioms):
 * `Inj P.Hp`, `Inj P.H`, `Inj P.vhash` — the three uses of sha256 are collision free, and the
   byte serialisation of the `Write` calls is unambiguous (components are compared as a list);
-* `Respects P.an eqv` — the analysis is a function of the inputs *named by the key*, up to an
-  arbitrary relation `eqv` on facts files (the real facts file is gob-encoded in map order, so
-  two analyses of identical inputs may differ in bytes): related inputs give the same
+* `Respects P.an eqv` — the analysis is deterministic *in what it is given* (`ainOf`: the
+  package, the configuration fields in `Shape.cfgReads`, the environment variables in
+  `Shape.envReads`, target Go version, analyzer set, salt, facts of the dependencies), up to
+  an arbitrary relation `eqv` on facts files (the real facts file is gob-encoded in map order,
+  so two analyses of identical inputs may differ in bytes): related inputs give the same
   errors / the same diagnostics and related facts, whatever the nonce and for both values of
   `factsOnly` (diagnostics are only compared between two full analyses).
-  This is exactly what the differential runs of the check probe on the real binary. -/
+* `S.Covers` — the **structural** obligation that ties the two views together: every named
+  input the analysis reads is among the names the key hashes.  It is *not* assumed for the
+  code under test: `gen_covers` re-proves it by kernel evaluation for the shape extracted
+  from the current source (`Gen.shape`), `gen_runtime_covers` for the fields the running
+  binary was seen to hash, and `warm_eq_cold_gen` is the transparency theorem for that shape
+  without this hypothesis.  `uncovered_input_breaks` shows that it cannot be dropped. -/
 namespace Verif.C04
 
 variable {PD VD D : Type}
@@ -18,9 +25,9 @@ variable {PD VD D : Type}
 /-! ### definitions used in the statements -/
 
 /-- Every entry of the cache was written as `put (key i) (analyze i)`. -/
-def CacheOK (P : Params PD VD D) (c : Cache D) : Prop :=
-  (∀ kv ∈ c.vet, ∃ n f i r, kv.1 = key P i ∧ P.an n f i = .done kv.2 r) ∧
-  (∀ kr ∈ c.res, ∃ n i v, kr.1 = key P i ∧ P.an n false i = .done v kr.2)
+def CacheOK (S : Shape) (P : Params PD VD D) (c : Cache D) : Prop :=
+  (∀ kv ∈ c.vet, ∃ n f w p dv r, kv.1 = keyOf S P w p dv ∧ P.an n f (ainOf S w p dv) = .done kv.2 r) ∧
+  (∀ kr ∈ c.res, ∃ n w p dv v, kr.1 = keyOf S P w p dv ∧ P.an n false (ainOf S w p dv) = .done v kr.2)
 
 inductive DepRel (eqv : Vetx → Vetx → Prop) : List (String × Vetx) → List (String × Vetx) → Prop
   | nil : DepRel eqv [] []
@@ -29,7 +36,7 @@ inductive DepRel (eqv : Vetx → Vetx → Prop) : List (String × Vetx) → List
 /-- Same inputs, facts files of the dependencies related by `eqv`. -/
 def InEq (eqv : Vetx → Vetx → Prop) (a b : AInputs) : Prop :=
   a.salt = b.salt ∧ a.cfg = b.cfg ∧ a.pkg = b.pkg ∧ a.analyzers = b.analyzers ∧
-  a.goVersion = b.goVersion ∧ a.godebug = b.godebug ∧ a.extra = b.extra ∧ DepRel eqv a.depVetx b.depVetx
+  a.goVersion = b.goVersion ∧ a.env = b.env ∧ a.extra = b.extra ∧ DepRel eqv a.depVetx b.depVetx
 
 def OutcomeRel (eqv : Vetx → Vetx → Prop) (f f' : Bool) : Outcome → Outcome → Prop
   | .error e, .error e' => e = e'
@@ -47,11 +54,11 @@ def OutRel (eqv : Vetx → Vetx → Prop) : Pkg × Out → Pkg × Out → Prop
 
 /-! ### cache invariant -/
 
-theorem cacheOK_empty (P : Params PD VD D) : CacheOK P (Cache.empty : Cache D) := by
+theorem cacheOK_empty (S : Shape) (P : Params PD VD D) : CacheOK S P (Cache.empty : Cache D) := by
   constructor <;> intro _ h <;> simp [Cache.empty] at h
 
-theorem doPkg_cacheOK [DecidableEq D] (P : Params PD VD D) (w : World) (c : Cache D) (n : Nat)
-    (done : List (Pkg × Out)) (p : Pkg) (hc : CacheOK P c) : CacheOK P (doPkg P w c n done p).1 := by
+theorem doPkg_cacheOK [DecidableEq D] (S : Shape) (P : Params PD VD D) (w : World) (c : Cache D) (n : Nat)
+    (done : List (Pkg × Out)) (p : Pkg) (hc : CacheOK S P c) : CacheOK S P (doPkg S P w c n done p).1 := by
   unfold doPkg
   split
   · exact hc
@@ -68,108 +75,131 @@ theorem doPkg_cacheOK [DecidableEq D] (P : Params PD VD D) (w : World) (c : Cach
           constructor
           · intro kv hkv
             rcases List.mem_cons.1 hkv with rfl | h
-            · exact ⟨n, false, _, r, rfl, han⟩
+            · exact ⟨n, false, w, p, dv, r, rfl, han⟩
             · exact hc.1 kv h
           · intro kr hkr
             rcases List.mem_cons.1 hkr with rfl | h
-            · exact ⟨n, _, v, rfl, han⟩
+            · exact ⟨n, w, p, dv, v, rfl, han⟩
             · exact hc.2 kr h
         · simp only [hi]
           constructor
           · intro kv hkv
             rcases List.mem_cons.1 hkv with rfl | h
-            · exact ⟨n, _, _, r, rfl, han⟩
+            · exact ⟨n, _, w, p, dv, r, rfl, han⟩
             · exact hc.1 kv h
           · exact hc.2
 
-theorem runPkgs_cacheOK [DecidableEq D] (P : Params PD VD D) (w : World) (ps : List Pkg) :
-    ∀ (c : Cache D) (n : Nat) (done : List (Pkg × Out)), CacheOK P c → CacheOK P (runPkgs P w c n done ps).1 := by
+theorem runPkgs_cacheOK [DecidableEq D] (S : Shape) (P : Params PD VD D) (w : World) (ps : List Pkg) :
+    ∀ (c : Cache D) (n : Nat) (done : List (Pkg × Out)), CacheOK S P c → CacheOK S P (runPkgs S P w c n done ps).1 := by
   induction ps with
   | nil => intro c n done hc; exact hc
   | cons p ps ih =>
     intro c n done hc
     unfold runPkgs
-    exact ih _ _ _ (doPkg_cacheOK P w c n done p hc)
+    exact ih _ _ _ (doPkg_cacheOK S P w c n done p hc)
 
 /-- **cache_inv**: an invocation started on a cache in which every entry is
 `⟨key i, analyze i⟩` leaves such a cache; hence every cache reachable from the empty one by
 any history of invocations on any worlds is of this form. -/
-theorem cache_inv [DecidableEq D] (P : Params PD VD D) (c : Cache D) (n : Nat) (w : World)
-    (hc : CacheOK P c) : CacheOK P (run P c n w).1 :=
-  runPkgs_cacheOK P w w.pkgs c n [] hc
+theorem cache_inv [DecidableEq D] (S : Shape) (P : Params PD VD D) (c : Cache D) (n : Nat) (w : World)
+    (hc : CacheOK S P c) : CacheOK S P (run S P c n w).1 :=
+  runPkgs_cacheOK S P w w.pkgs c n [] hc
 
-theorem cache_inv_history [DecidableEq D] (P : Params PD VD D) (ws : List World) :
-    CacheOK P (cacheAfter P ws).1 := by
+theorem cache_inv_history [DecidableEq D] (S : Shape) (P : Params PD VD D) (ws : List World) :
+    CacheOK S P (cacheAfter S P ws).1 := by
   induction ws with
-  | nil => exact cacheOK_empty P
-  | cons w ws ih => exact cache_inv P _ _ w ih
+  | nil => exact cacheOK_empty S P
+  | cons w ws ih => exact cache_inv S P _ _ w ih
+
+/-! ### the key determines what the analysis reads (the role of `Shape.Covers`) -/
+
+/-- "Equal keys ⇒ equal analysis inputs" — the only fact about keys the proof needs. -/
+def KeyDetermines (S : Shape) (P : Params PD VD D) : Prop :=
+  ∀ (w : World) (p : Pkg) (dv : List (String × Vetx)) (w' : World) (p' : Pkg) (dv' : List (String × Vetx)),
+    keyOf S P w p dv = keyOf S P w' p' dv' → ainOf S w p dv = ainOf S w' p' dv'
+
+/-- **key_determines_inputs**: with collision-free hashes, the structural obligation
+`inputs ⊆ components` (`S.Covers`) is all that is needed for the action key to determine
+everything the analysis can read. -/
+theorem key_determines_inputs (S : Shape) (P : Params PD VD D) (hc : S.Covers)
+    (hHp : Inj P.Hp) (hV : Inj P.vhash) (hH : Inj P.H) : KeyDetermines S P := by
+  intro w p dv w' p' dv' h
+  have e := key_inj P hHp hV hH h
+  unfold mkInputs at e
+  have e' : w.salt = w'.salt ∧ restrict S.cfgHashed p.cfg = restrict S.cfgHashed p'.cfg ∧ p.src = p'.src ∧
+      w.analyzers = w'.analyzers ∧ w.goVersion = w'.goVersion ∧
+      restrict S.envHashed w.env = restrict S.envHashed w'.env ∧ dv = dv' ∧ p.extra = p'.extra := by
+    simpa using e
+  obtain ⟨e1, e2, e3, e4, e5, e6, e7, e8⟩ := e'
+  unfold ainOf mkInputs
+  rw [e1, restrict_mono hc.1 e2, e3, e4, e5, restrict_mono hc.2 e6, e7, e8]
 
 /-! ### one step: what `doPkg` returns, in terms of the analysis only -/
 
 /-- The result of a package action is an analysis result for *its own* inputs, whether it
 was computed now or served from the cache. -/
-def StepSpec (P : Params PD VD D) (w : World) (done : List (Pkg × Out)) (p : Pkg) (o : Out) : Prop :=
+def StepSpec (S : Shape) (P : Params PD VD D) (w : World) (done : List (Pkg × Out)) (p : Pkg) (o : Out) : Prop :=
   match depVetx done p.deps with
   | none => o = .failed []
   | some dv =>
-    (∃ e n f, o = .failed e ∧ P.an n f (mkInputs w p dv) = .error e) ∨
-    (∃ v ro, o = .ok v ro ∧ (∃ n f r, P.an n f (mkInputs w p dv) = .done v r) ∧
-      (if p.initial = true then ∃ n v' r, P.an n false (mkInputs w p dv) = .done v' r ∧ ro = some r
+    (∃ e n f, o = .failed e ∧ P.an n f (ainOf S w p dv) = .error e) ∨
+    (∃ v ro, o = .ok v ro ∧ (∃ n f r, P.an n f (ainOf S w p dv) = .done v r) ∧
+      (if p.initial = true then ∃ n v' r, P.an n false (ainOf S w p dv) = .done v' r ∧ ro = some r
        else ro = none))
 
-theorem lookupAll_spec [DecidableEq D] (P : Params PD VD D)
-    (hK : ∀ a b : AInputs, key P a = key P b → a = b)
-    (c : Cache D) (hc : CacheOK P c) (ai : AInputs) (initial : Bool) (o : Out)
-    (h : lookupAll c (key P ai) initial = some o) :
-    ∃ v ro, o = .ok v ro ∧ (∃ n f r, P.an n f ai = .done v r) ∧
-      (if initial = true then ∃ n v' r, P.an n false ai = .done v' r ∧ ro = some r else ro = none) := by
+theorem lookupAll_spec [DecidableEq D] (S : Shape) (P : Params PD VD D) (hK : KeyDetermines S P)
+    (c : Cache D) (hc : CacheOK S P c) (w : World) (p : Pkg) (dv : List (String × Vetx))
+    (initial : Bool) (o : Out)
+    (h : lookupAll c (keyOf S P w p dv) initial = some o) :
+    ∃ v ro, o = .ok v ro ∧ (∃ n f r, P.an n f (ainOf S w p dv) = .done v r) ∧
+      (if initial = true then ∃ n v' r, P.an n false (ainOf S w p dv) = .done v' r ∧ ro = some r else ro = none) := by
   unfold lookupAll at h
   split at h
   · simp at h
   · rename_i v hv
-    obtain ⟨n, f, i, r, hk, han⟩ := hc.1 _ (find_mem hv)
-    have hi : ai = i := hK _ _ hk
-    subst hi
+    obtain ⟨n, f, w1, p1, dv1, r, hk, han⟩ := hc.1 _ (find_mem hv)
+    have hi := hK _ _ _ _ _ _ hk
+    rw [← hi] at han
     by_cases hinit : initial = true
     · simp only [hinit, if_true] at h ⊢
       split at h
       · simp at h
       · rename_i r' hr'
-        obtain ⟨n', i', v', hk', han'⟩ := hc.2 _ (find_mem hr')
-        have hi' : ai = i' := hK _ _ hk'
-        subst hi'
+        obtain ⟨n', w2, p2, dv2, v', hk', han'⟩ := hc.2 _ (find_mem hr')
+        have hi' := hK _ _ _ _ _ _ hk'
+        rw [← hi'] at han'
         have : o = .ok v (some r') := by simpa using h.symm
         exact ⟨v, some r', this, ⟨n, f, r, han⟩, ⟨n', v', r', han', rfl⟩⟩
     · simp only [hinit] at h ⊢
       have : o = .ok v none := by simpa using h.symm
       exact ⟨v, none, this, ⟨n, f, r, han⟩, by simp⟩
 
-theorem doPkg_depfail [DecidableEq D] (P : Params PD VD D) (w : World) (c : Cache D) (n : Nat)
+theorem doPkg_depfail [DecidableEq D] (S : Shape) (P : Params PD VD D) (w : World) (c : Cache D) (n : Nat)
     (done : List (Pkg × Out)) (p : Pkg) (h : depVetx done p.deps = none) :
-    doPkg P w c n done p = (c, n, .failed []) := by
+    doPkg S P w c n done p = (c, n, .failed []) := by
   simp [doPkg, h]
 
-theorem doPkg_hit [DecidableEq D] (P : Params PD VD D) (w : World) (c : Cache D) (n : Nat)
+theorem doPkg_hit [DecidableEq D] (S : Shape) (P : Params PD VD D) (w : World) (c : Cache D) (n : Nat)
     (done : List (Pkg × Out)) (p : Pkg) (dv : List (String × Vetx)) (o : Out)
     (h : depVetx done p.deps = some dv)
-    (hl : lookupAll c (key P (mkInputs w p dv)) p.initial = some o) :
-    doPkg P w c n done p = (c, n, o) := by
+    (hl : lookupAll c (keyOf S P w p dv) p.initial = some o) :
+    doPkg S P w c n done p = (c, n, o) := by
   simp [doPkg, h, hl]
 
-theorem doPkg_err [DecidableEq D] (P : Params PD VD D) (w : World) (c : Cache D) (n : Nat)
+theorem doPkg_err [DecidableEq D] (S : Shape) (P : Params PD VD D) (w : World) (c : Cache D) (n : Nat)
     (done : List (Pkg × Out)) (p : Pkg) (dv : List (String × Vetx)) (e : List String)
     (h : depVetx done p.deps = some dv)
-    (hl : lookupAll c (key P (mkInputs w p dv)) p.initial = none)
-    (ha : P.an n (!p.initial) (mkInputs w p dv) = .error e) :
-    doPkg P w c n done p = (c, n + 1, .failed e) := by
+    (hl : lookupAll c (keyOf S P w p dv) p.initial = none)
+    (ha : P.an n (!p.initial) (ainOf S w p dv) = .error e) :
+    doPkg S P w c n done p = (c, n + 1, .failed e) := by
   simp [doPkg, h, hl, ha]
 
-theorem doPkg_done [DecidableEq D] (P : Params PD VD D) (w : World) (c : Cache D) (n : Nat)
+theorem doPkg_done [DecidableEq D] (S : Shape) (P : Params PD VD D) (w : World) (c : Cache D) (n : Nat)
     (done : List (Pkg × Out)) (p : Pkg) (dv : List (String × Vetx)) (v : Vetx) (r : Results)
     (h : depVetx done p.deps = some dv)
-    (hl : lookupAll c (key P (mkInputs w p dv)) p.initial = none)
-    (ha : P.an n (!p.initial) (mkInputs w p dv) = .done v r) :
-    (doPkg P w c n done p).2.2 = .ok v (if p.initial = true then some r else none) := by
+    (hl : lookupAll c (keyOf S P w p dv) p.initial = none)
+    (ha : P.an n (!p.initial) (ainOf S w p dv) = .done v r) :
+    (doPkg S P w c n done p).2.2 = .ok v (if p.initial = true then some r else none) := by
   cases hi : p.initial
   · rw [hi] at hl ha
     simp only [Bool.not_false] at ha
@@ -178,27 +208,26 @@ theorem doPkg_done [DecidableEq D] (P : Params PD VD D) (w : World) (c : Cache D
     simp only [Bool.not_true] at ha
     simp [doPkg, h, hi, hl, ha]
 
-theorem doPkg_spec [DecidableEq D] (P : Params PD VD D)
-    (hK : ∀ a b : AInputs, key P a = key P b → a = b)
-    (w : World) (c : Cache D) (n : Nat) (done : List (Pkg × Out)) (p : Pkg) (hc : CacheOK P c) :
-    StepSpec P w done p (doPkg P w c n done p).2.2 := by
+theorem doPkg_spec [DecidableEq D] (S : Shape) (P : Params PD VD D) (hK : KeyDetermines S P)
+    (w : World) (c : Cache D) (n : Nat) (done : List (Pkg × Out)) (p : Pkg) (hc : CacheOK S P c) :
+    StepSpec S P w done p (doPkg S P w c n done p).2.2 := by
   unfold StepSpec
   cases hdv : depVetx done p.deps with
-  | none => simp [doPkg_depfail P w c n done p hdv]
+  | none => simp [doPkg_depfail S P w c n done p hdv]
   | some dv =>
     simp only
-    cases hl : lookupAll c (key P (mkInputs w p dv)) p.initial with
+    cases hl : lookupAll c (keyOf S P w p dv) p.initial with
     | some o =>
-      rw [doPkg_hit P w c n done p dv o hdv hl]
+      rw [doPkg_hit S P w c n done p dv o hdv hl]
       right
-      exact lookupAll_spec P hK c hc _ _ _ hl
+      exact lookupAll_spec S P hK c hc _ _ _ _ _ hl
     | none =>
-      cases ha : P.an n (!p.initial) (mkInputs w p dv) with
+      cases ha : P.an n (!p.initial) (ainOf S w p dv) with
       | error e =>
-        rw [doPkg_err P w c n done p dv e hdv hl ha]
+        rw [doPkg_err S P w c n done p dv e hdv hl ha]
         left; exact ⟨e, n, _, rfl, ha⟩
       | done v r =>
-        rw [doPkg_done P w c n done p dv v r hdv hl ha]
+        rw [doPkg_done S P w c n done p dv v r hdv hl ha]
         right
         by_cases hi : p.initial = true
         · simp only [hi, if_true]
@@ -239,16 +268,16 @@ theorem depVetx_rel (eqv : Vetx → Vetx → Prop) {d1 d2 : List (Pkg × Out)}
           · right
             exact ⟨(p1.src.pkgPath, v1) :: a, (p1.src.pkgPath, v2) :: b, by simp [i1], by simp [i2], .cons hv hab⟩
 
-theorem step_rel (P : Params PD VD D) (eqv : Vetx → Vetx → Prop) (hA : Respects P.an eqv)
+theorem step_rel (S : Shape) (P : Params PD VD D) (eqv : Vetx → Vetx → Prop) (hA : Respects P.an eqv)
     (w : World) {d1 d2 : List (Pkg × Out)} (hd : AllRel (OutRel eqv) d1 d2) (p : Pkg) (o1 o2 : Out)
-    (s1 : StepSpec P w d1 p o1) (s2 : StepSpec P w d2 p o2) : OutRel eqv (p, o1) (p, o2) := by
+    (s1 : StepSpec S P w d1 p o1) (s2 : StepSpec S P w d2 p o2) : OutRel eqv (p, o1) (p, o2) := by
   unfold StepSpec at s1 s2
   rcases depVetx_rel eqv hd p.deps with ⟨h1, h2⟩ | ⟨a, b, h1, h2, hab⟩
   · rw [h1] at s1; rw [h2] at s2
     subst s1; subst s2; exact ⟨rfl, rfl⟩
   · rw [h1] at s1; rw [h2] at s2
     simp only at s1 s2
-    have hin : InEq eqv (mkInputs w p a) (mkInputs w p b) :=
+    have hin : InEq eqv (ainOf S w p a) (ainOf S w p b) :=
       ⟨rfl, rfl, rfl, rfl, rfl, rfl, rfl, hab⟩
     rcases s1 with ⟨e1, n1, f1, rfl, a1⟩ | ⟨v1, ro1, rfl, ⟨n1, f1, r1, a1⟩, t1⟩ <;>
     rcases s2 with ⟨e2, n2, f2, rfl, a2⟩ | ⟨v2, ro2, rfl, ⟨n2, f2, r2, a2⟩, t2⟩
@@ -275,30 +304,31 @@ theorem step_rel (P : Params PD VD D) (eqv : Vetx → Vetx → Prop) (hA : Respe
         simp at t1 t2
         rw [t1, t2]
 
-theorem runPkgs_rel [DecidableEq D] (P : Params PD VD D) (eqv : Vetx → Vetx → Prop)
-    (hK : ∀ a b : AInputs, key P a = key P b → a = b) (hA : Respects P.an eqv) (w : World)
+theorem runPkgs_rel [DecidableEq D] (S : Shape) (P : Params PD VD D) (eqv : Vetx → Vetx → Prop)
+    (hK : KeyDetermines S P) (hA : Respects P.an eqv) (w : World)
     (ps : List Pkg) :
     ∀ (c1 c2 : Cache D) (n1 n2 : Nat) (d1 d2 : List (Pkg × Out)),
-      CacheOK P c1 → CacheOK P c2 → AllRel (OutRel eqv) d1 d2 →
-      AllRel (OutRel eqv) (runPkgs P w c1 n1 d1 ps).2.2 (runPkgs P w c2 n2 d2 ps).2.2 := by
+      CacheOK S P c1 → CacheOK S P c2 → AllRel (OutRel eqv) d1 d2 →
+      AllRel (OutRel eqv) (runPkgs S P w c1 n1 d1 ps).2.2 (runPkgs S P w c2 n2 d2 ps).2.2 := by
   induction ps with
   | nil => intro c1 c2 n1 n2 d1 d2 _ _ hd; exact hd
   | cons p ps ih =>
     intro c1 c2 n1 n2 d1 d2 h1 h2 hd
     unfold runPkgs
     apply ih
-    · exact doPkg_cacheOK P w c1 n1 d1 p h1
-    · exact doPkg_cacheOK P w c2 n2 d2 p h2
-    · exact hd.snoc (step_rel P eqv hA w hd p _ _ (doPkg_spec P hK w c1 n1 d1 p h1)
-        (doPkg_spec P hK w c2 n2 d2 p h2))
+    · exact doPkg_cacheOK S P w c1 n1 d1 p h1
+    · exact doPkg_cacheOK S P w c2 n2 d2 p h2
+    · exact hd.snoc (step_rel S P eqv hA w hd p _ _ (doPkg_spec S P hK w c1 n1 d1 p h1)
+        (doPkg_spec S P hK w c2 n2 d2 p h2))
 
-theorem report_rel (eqv : Vetx → Vetx → Prop) (sel : List String → String → Bool)
-    {d1 d2 : List (Pkg × Out)} (h : AllRel (OutRel eqv) d1 d2) : report sel d1 = report sel d2 := by
-  unfold report
+/-- Related runs load the same thing into `linter.lint`: same packages, same errors, same
+`results` entries (the facts files may differ in byte order). -/
+theorem strip_rel (eqv : Vetx → Vetx → Prop) {d1 d2 : List (Pkg × Out)}
+    (h : AllRel (OutRel eqv) d1 d2) : d1.map strip = d2.map strip := by
   induction h with
   | nil => rfl
   | @cons x y l1 l2 hab _ ih =>
-    simp only [List.flatMap_cons, ih]
+    simp only [List.map_cons, ih]
     congr 1
     obtain ⟨p1, o1⟩ := x
     obtain ⟨p2, o2⟩ := y
@@ -313,28 +343,70 @@ theorem report_rel (eqv : Vetx → Vetx → Prop) (sel : List String → String 
       | ok v2 r2 =>
         simp only [OutRel] at hab
         obtain ⟨rfl, _, rfl⟩ := hab
-        cases r1 <;> rfl
+        rfl
+
+/-- `report` looks at the loaded results only. -/
+def reportL (sel : List String → String → Bool) : Pkg × Loaded → Results
+  | (_, .failed errs) => errs.map (fun e => ⟨"compile", e⟩)
+  | (p, .ok (some r)) => if p.initial then r.filter (fun d => sel p.checks d.check) else []
+  | (_, .ok none) => []
+
+theorem report_factors (sel : List String → String → Bool) (outs : List (Pkg × Out)) :
+    report sel outs = (outs.map strip).flatMap (reportL sel) := by
+  unfold report
+  rw [List.flatMap_map]
+  congr 1
+  funext x
+  obtain ⟨p, o⟩ := x
+  cases o with
+  | failed e => rfl
+  | ok v ro => cases ro <;> rfl
+
+theorem report_rel (eqv : Vetx → Vetx → Prop) (sel : List String → String → Bool)
+    {d1 d2 : List (Pkg × Out)} (h : AllRel (OutRel eqv) d1 d2) : report sel d1 = report sel d2 := by
+  rw [report_factors, report_factors, strip_rel eqv h]
 
 /-- Two invocations on the same world, started from any two caches whose entries are all of
-the form `⟨key i, analyze i⟩` and with any nonces, report the same problems. -/
-theorem run_report_eq [DecidableEq D] (P : Params PD VD D) (eqv : Vetx → Vetx → Prop)
-    (hHp : Inj P.Hp) (hV : Inj P.vhash) (hH : Inj P.H) (hA : Respects P.an eqv)
+the form `⟨key, analysis result for the inputs of that key⟩` and with any nonces, load the
+same results — so *any* post-processing of the loaded results (`linter.lint`: the `Checks`
+filter, `filterIgnored` over the cached directives, the cross-package merge of U1000's
+`unused` results, `MergeIf`, …) reports the same problems. -/
+theorem run_loaded_eq [DecidableEq D] (S : Shape) (P : Params PD VD D) (eqv : Vetx → Vetx → Prop)
+    (hc : S.Covers) (hHp : Inj P.Hp) (hV : Inj P.vhash) (hH : Inj P.H) (hA : Respects P.an eqv)
+    (c1 c2 : Cache D) (n1 n2 : Nat) (w : World)
+    (h1 : CacheOK S P c1) (h2 : CacheOK S P c2) :
+    (run S P c1 n1 w).2.2.map strip = (run S P c2 n2 w).2.2.map strip :=
+  strip_rel eqv
+    (runPkgs_rel S P eqv (key_determines_inputs S P hc hHp hV hH) hA w w.pkgs c1 c2 n1 n2 [] [] h1 h2 .nil)
+
+theorem run_report_eq [DecidableEq D] (S : Shape) (P : Params PD VD D) (eqv : Vetx → Vetx → Prop)
+    (hc : S.Covers) (hHp : Inj P.Hp) (hV : Inj P.vhash) (hH : Inj P.H) (hA : Respects P.an eqv)
     (sel : List String → String → Bool) (c1 c2 : Cache D) (n1 n2 : Nat) (w : World)
-    (h1 : CacheOK P c1) (h2 : CacheOK P c2) :
-    report sel (run P c1 n1 w).2.2 = report sel (run P c2 n2 w).2.2 :=
-  report_rel eqv sel
-    (runPkgs_rel P eqv (fun _ _ => key_inj P hHp hV hH) hA w w.pkgs c1 c2 n1 n2 [] [] h1 h2 .nil)
+    (h1 : CacheOK S P c1) (h2 : CacheOK S P c2) :
+    report sel (run S P c1 n1 w).2.2 = report sel (run S P c2 n2 w).2.2 := by
+  rw [report_factors, report_factors, run_loaded_eq S P eqv hc hHp hV hH hA c1 c2 n1 n2 w h1 h2]
 
 /-- **warm_eq_cold** (C04): for every history `ws` of invocations on arbitrary worlds
 (arbitrary source, dependency, configuration, flag and environment changes in between) that
 share one cache, an invocation on any world `w` with the resulting cache reports exactly
-what an invocation on `w` with an empty cache reports. -/
-theorem warm_eq_cold [DecidableEq D] (P : Params PD VD D) (eqv : Vetx → Vetx → Prop)
-    (hHp : Inj P.Hp) (hV : Inj P.vhash) (hH : Inj P.H) (hA : Respects P.an eqv)
+what an invocation on `w` with an empty cache reports — provided the shape of the code
+satisfies the structural obligation `S.Covers` (every named input the analysis reads is
+hashed into the key). -/
+theorem warm_eq_cold [DecidableEq D] (S : Shape) (P : Params PD VD D) (eqv : Vetx → Vetx → Prop)
+    (hc : S.Covers) (hHp : Inj P.Hp) (hV : Inj P.vhash) (hH : Inj P.H) (hA : Respects P.an eqv)
     (sel : List String → String → Bool) (ws : List World) (w : World) (n' : Nat) :
-    report sel (run P (cacheAfter P ws).1 (cacheAfter P ws).2 w).2.2 =
-      report sel (run P Cache.empty n' w).2.2 :=
-  run_report_eq P eqv hHp hV hH hA sel _ _ _ _ w (cache_inv_history P ws) (cacheOK_empty P)
+    report sel (run S P (cacheAfter S P ws).1 (cacheAfter S P ws).2 w).2.2 =
+      report sel (run S P Cache.empty n' w).2.2 :=
+  run_report_eq S P eqv hc hHp hV hH hA sel _ _ _ _ w (cache_inv_history S P ws) (cacheOK_empty S P)
+
+/-- **warm_eq_cold_post**: the same for an arbitrary post-processing `post` of what
+`linter.lint` loads (it may depend on the current world: flags, merged `Checks`, …). -/
+theorem warm_eq_cold_post [DecidableEq D] {R : Type} (S : Shape) (P : Params PD VD D) (eqv : Vetx → Vetx → Prop)
+    (hc : S.Covers) (hHp : Inj P.Hp) (hV : Inj P.vhash) (hH : Inj P.H) (hA : Respects P.an eqv)
+    (post : World → List (Pkg × Loaded) → R) (ws : List World) (w : World) (n' : Nat) :
+    post w ((run S P (cacheAfter S P ws).1 (cacheAfter S P ws).2 w).2.2.map strip) =
+      post w ((run S P Cache.empty n' w).2.2.map strip) := by
+  rw [run_loaded_eq S P eqv hc hHp hV hH hA _ Cache.empty _ n' w (cache_inv_history S P ws) (cacheOK_empty S P)]
 
 /-- The deterministic reading of the design: `analyze : Inputs → Vetx × Results` a function. -/
 theorem respects_of_function (analyze : AInputs → Outcome) :
@@ -352,14 +424,14 @@ theorem respects_of_function (analyze : AInputs → Outcome) :
   show OutcomeRel Eq f f' (analyze i) (analyze i)
   cases analyze i <;> simp [OutcomeRel]
 
-theorem warm_eq_cold_det [DecidableEq D] (Hp : List PComp → PD) (vhash : Vetx → VD)
+theorem warm_eq_cold_det [DecidableEq D] (S : Shape) (hc : S.Covers) (Hp : List PComp → PD) (vhash : Vetx → VD)
     (H : List (KComp PD VD) → D) (analyze : AInputs → Outcome)
     (hHp : Inj Hp) (hV : Inj vhash) (hH : Inj H)
     (sel : List String → String → Bool) (ws : List World) (w : World) (n' : Nat) :
     let P : Params PD VD D := ⟨Hp, vhash, H, fun _ _ i => analyze i⟩
-    report sel (run P (cacheAfter P ws).1 (cacheAfter P ws).2 w).2.2 =
-      report sel (run P Cache.empty n' w).2.2 :=
-  warm_eq_cold ⟨Hp, vhash, H, fun _ _ i => analyze i⟩ Eq hHp hV hH (respects_of_function analyze) sel ws w n'
+    report sel (run S P (cacheAfter S P ws).1 (cacheAfter S P ws).2 w).2.2 =
+      report sel (run S P Cache.empty n' w).2.2 :=
+  warm_eq_cold S ⟨Hp, vhash, H, fun _ _ i => analyze i⟩ Eq hc hHp hV hH (respects_of_function analyze) sel ws w n'
 
 /-! ### `Checks` is not part of the key, and need not be -/
 
@@ -381,18 +453,18 @@ theorem depVetx_erase (done : List (Pkg × Out)) (ds : List Nat) :
       obtain ⟨p, o⟩ := x
       cases o <;> rfl
 
-theorem doPkg_erase [DecidableEq D] (P : Params PD VD D) (w : World) (c : Cache D) (n : Nat)
+theorem doPkg_erase [DecidableEq D] (S : Shape) (P : Params PD VD D) (w : World) (c : Cache D) (n : Nat)
     (done : List (Pkg × Out)) (p : Pkg) :
-    doPkg P w.eraseChecks c n (done.map eraseOut) p.eraseChecks = doPkg P w c n done p := by
+    doPkg S P w.eraseChecks c n (done.map eraseOut) p.eraseChecks = doPkg S P w c n done p := by
   unfold doPkg
   rw [show p.eraseChecks.deps = p.deps from rfl, depVetx_erase]
   rfl
 
-theorem runPkgs_erase [DecidableEq D] (P : Params PD VD D) (w : World) (ps : List Pkg) :
+theorem runPkgs_erase [DecidableEq D] (S : Shape) (P : Params PD VD D) (w : World) (ps : List Pkg) :
     ∀ (c : Cache D) (n : Nat) (done : List (Pkg × Out)),
-      runPkgs P w.eraseChecks c n (done.map eraseOut) (ps.map Pkg.eraseChecks) =
-        ((runPkgs P w c n done ps).1, (runPkgs P w c n done ps).2.1,
-          (runPkgs P w c n done ps).2.2.map eraseOut) := by
+      runPkgs S P w.eraseChecks c n (done.map eraseOut) (ps.map Pkg.eraseChecks) =
+        ((runPkgs S P w c n done ps).1, (runPkgs S P w c n done ps).2.1,
+          (runPkgs S P w c n done ps).2.2.map eraseOut) := by
   induction ps with
   | nil => intro c n done; rfl
   | cons p ps ih =>
@@ -400,20 +472,21 @@ theorem runPkgs_erase [DecidableEq D] (P : Params PD VD D) (w : World) (ps : Lis
     simp only [List.map_cons]
     unfold runPkgs
     simp only [doPkg_erase]
-    have := ih (doPkg P w c n done p).1 (doPkg P w c n done p).2.1 (done ++ [(p, (doPkg P w c n done p).2.2)])
+    have := ih (doPkg S P w c n done p).1 (doPkg S P w c n done p).2.1 (done ++ [(p, (doPkg S P w c n done p).2.2)])
     simpa [eraseOut] using this
 
 /-- **checks_not_in_key_ok**: the cache contents, the set of analyses performed and every
-package result are independent of `Checks`; two worlds that differ only in `Checks`
-(`-checks`, `checks = […]` in any staticcheck.conf) leave the same cache and produce the same
-per-package results, so the report depends on `Checks` only through the post-filter
-`sel p.checks` of `report`. -/
-theorem checks_not_in_key_ok [DecidableEq D] (P : Params PD VD D) (c : Cache D) (n : Nat)
+package result are independent of the merged `Checks` (kept apart from the named
+configuration `Pkg.cfg`; a shape that lists `Checks` among `cfgReads` is rejected by
+`gen_covers`): two worlds that differ only in `Checks` (`-checks`, `checks = […]` in any
+staticcheck.conf) leave the same cache and produce the same per-package results, so the
+report depends on `Checks` only through the post-processing. -/
+theorem checks_not_in_key_ok [DecidableEq D] (S : Shape) (P : Params PD VD D) (c : Cache D) (n : Nat)
     (w w' : World) (h : w.eraseChecks = w'.eraseChecks) :
-    (run P c n w).1 = (run P c n w').1 ∧ (run P c n w).2.1 = (run P c n w').2.1 ∧
-    (run P c n w).2.2.map eraseOut = (run P c n w').2.2.map eraseOut := by
-  have e1 := runPkgs_erase P w w.pkgs c n []
-  have e2 := runPkgs_erase P w' w'.pkgs c n []
+    (run S P c n w).1 = (run S P c n w').1 ∧ (run S P c n w).2.1 = (run S P c n w').2.1 ∧
+    (run S P c n w).2.2.map eraseOut = (run S P c n w').2.2.map eraseOut := by
+  have e1 := runPkgs_erase S P w w.pkgs c n []
+  have e2 := runPkgs_erase S P w' w'.pkgs c n []
   have hp : w.pkgs.map Pkg.eraseChecks = w'.pkgs.map Pkg.eraseChecks := by
     have := congrArg World.pkgs h
     simpa [World.eraseChecks] using this
@@ -441,13 +514,51 @@ theorem report_uses_checks_only_in_filter (sel : List String → String → Bool
   | failed e => rfl
   | ok v ro => cases ro <;> rfl
 
-/-! ### generated-facts obligation: the observed key components cover the model's inputs -/
+/-! ### generated-facts obligations (tie G): the shape of the *current* code
+
+`Verif/C04/Generated.lean` is rewritten by the check on every run from
+* the source (go/ast, `harness/cmd/c04extract`): the fields of `config.Config`, the fields
+  that reach `fmt.Fprintf(h, "cfg %#v\n", hashCfg)` in `subrunner.do`, the fields read through
+  `config.For(pass).F` anywhere, the environment variables written into the key and those read
+  by analysis-time packages, the tags of the `Fprintf` calls of `do` and `computeHash`;
+* the run-time HASH lines (`GODEBUG=gocachehash=1`): the tags written, the configuration fields
+  whose printed value was ever different from the zero value, the environment variables printed.
+The statements below are closed terms over those lists and are re-checked by the kernel. -/
+
+/-- **gen_covers** — the structural obligation for the current source: every configuration
+field an analyzer reads reaches the `cfg` component, every environment variable
+analysis-time code reads is written into the key. -/
+theorem gen_covers : Gen.shape.Covers := by decide
+
+/-- The same against what the running binary was *seen* to hash (independent of the source
+extraction: a field that is always printed as its zero value does not count). -/
+theorem gen_runtime_covers :
+    (∀ f ∈ Gen.shape.cfgReads, f ∈ Gen.observedCfgHashed) ∧
+    (∀ e ∈ Gen.shape.envReads, e ∈ Gen.observedEnvHashed) := by decide
+
+/-- Every field of `config.Config` that an analyzer reads exists, and the extraction saw the
+struct (guards against an extractor that silently finds nothing). -/
+theorem gen_reads_are_fields :
+    Gen.cfgFields ≠ [] ∧ Gen.shape.cfgReads ≠ [] ∧ ∀ f ∈ Gen.shape.cfgReads, f ∈ Gen.cfgFields := by decide
 
 /-- Every tag the model's `serialise` relies on was observed (at run time, via
 `GODEBUG=gocachehash=1`) among the components the real `subrunner.do` writes. -/
 theorem key_covers_inputs : ∀ t ∈ requiredTags, t ∈ Gen.observedActionTags := by decide
 
 theorem pkg_key_covers_inputs : ∀ t ∈ requiredPkgTags, t ∈ Gen.observedPkgTags := by decide
+
+/-- …and is written by a `fmt.Fprintf` of the source of `subrunner.do` / `computeHash`. -/
+theorem src_key_covers_inputs :
+    (∀ t ∈ requiredTags, t ∈ Gen.srcActionTags) ∧ (∀ t ∈ requiredPkgTags, t ∈ Gen.srcPkgTags) := by decide
+
+/-- **warm_eq_cold_gen**: cache transparency for the shape of the current code, with no
+hypothesis about which inputs the key names — that part is `gen_covers`. -/
+theorem warm_eq_cold_gen [DecidableEq D] (P : Params PD VD D) (eqv : Vetx → Vetx → Prop)
+    (hHp : Inj P.Hp) (hV : Inj P.vhash) (hH : Inj P.H) (hA : Respects P.an eqv)
+    {R : Type} (post : World → List (Pkg × Loaded) → R) (ws : List World) (w : World) (n' : Nat) :
+    post w ((run Gen.shape P (cacheAfter Gen.shape P ws).1 (cacheAfter Gen.shape P ws).2 w).2.2.map strip) =
+      post w ((run Gen.shape P Cache.empty n' w).2.2.map strip) :=
+  warm_eq_cold_post Gen.shape P eqv gen_covers hHp hV hH hA post ws w n'
 
 /-- …and `requiredTags` really is what `serialise` emits (so the obligation above is about
 the model's key, not about a list written next to it). -/
@@ -492,45 +603,98 @@ abbrev PD0 := List PComp
 abbrev VD0 := Vetx
 abbrev D0 := List (KComp PD0 VD0)
 
+/-- the shape of the unchanged code: the whole config minus `Checks` is hashed -/
+def S0 : Shape := ⟨["Initialisms", "DotImportWhitelist", "HTTPStatusCodeWhitelist"],
+  ["Initialisms", "DotImportWhitelist", "HTTPStatusCodeWhitelist"], ["GODEBUG"], []⟩
+
+def show1 (x : String × Option String) : String := x.1 ++ "=" ++ x.2.getD "nil" ++ ";"
+
+/-- a deterministic analysis that really depends on every configuration field it is shown -/
 def analyze0 (i : AInputs) : Outcome :=
   if i.goVersion = "bad" then .error ["type error"]
-  else .done (i.pkg.pkgPath ++ "#" ++ i.cfg ++ String.join (i.depVetx.map (·.2)))
-    [⟨"SA1019", i.pkg.pkgPath ++ i.goVersion⟩, ⟨"ST1003", i.cfg⟩]
+  else .done (i.pkg.pkgPath ++ "#" ++ String.join (i.depVetx.map (·.2)))
+    [⟨"SA1019", i.pkg.pkgPath ++ i.goVersion⟩, ⟨"ST1013", String.join (i.cfg.map show1)⟩]
 
 /-- structural "hashes": injective by construction -/
 def P0 : Params PD0 VD0 D0 := ⟨id, id, id, fun _ _ i => analyze0 i⟩
-def leaf : Pkg := ⟨⟨"linux", "amd64", "m/dep", ["f1"], [], []⟩, "cfgA", ["all"], true, [], []⟩
-def top (files : String) (checks : List String) : Pkg :=
-  ⟨⟨"linux", "amd64", "m/app", [files], [("m/dep", "id1")], []⟩, "cfgA", checks, true, [0], []⟩
-def w0 : World := ⟨"salt", "A,B", "module", "", [leaf, top "f2" ["SA1019"]]⟩
+def cfgA : Named := [("Initialisms", "ID"), ("HTTPStatusCodeWhitelist", "200,404")]
+/-- only `http_status_code_whitelist` differs -/
+def cfgB : Named := [("Initialisms", "ID"), ("HTTPStatusCodeWhitelist", "200,404,503")]
+def leaf : Pkg := ⟨⟨"linux", "amd64", "m/dep", ["f1"], [], []⟩, cfgA, ["all"], true, [], []⟩
+def top (files : String) (cfg : Named) (checks : List String) : Pkg :=
+  ⟨⟨"linux", "amd64", "m/app", [files], [("m/dep", "id1")], []⟩, cfg, checks, true, [0], []⟩
+def env0 : Named := [("GODEBUG", "gocachehash=1"), ("HOME", "/root")]
+def w0 : World := ⟨"salt", "A,B", "module", env0, [leaf, top "f2" cfgA ["SA1019"]]⟩
 /-- the target was edited -/
-def w1 : World := ⟨"salt", "A,B", "module", "", [leaf, top "f2-edited" ["SA1019"]]⟩
+def w1 : World := ⟨"salt", "A,B", "module", env0, [leaf, top "f2-edited" cfgA ["SA1019"]]⟩
 /-- only `Checks` changed -/
-def w2 : World := ⟨"salt", "A,B", "module", "", [leaf, top "f2" ["all"]]⟩
+def w2 : World := ⟨"salt", "A,B", "module", env0, [leaf, top "f2" cfgA ["all"]]⟩
+/-- only `http_status_code_whitelist` of the target changed -/
+def w3 : World := ⟨"salt", "A,B", "module", env0, [leaf, top "f2" cfgB ["all"]]⟩
+/-- only an environment variable nobody reads changed -/
+def w4 : World := ⟨"salt", "A,B", "module", [("GODEBUG", "gocachehash=1"), ("HOME", "/home/x")], [leaf, top "f2" cfgA ["SA1019"]]⟩
 def sel0 (checks : List String) (c : String) : Bool := checks.contains "all" || checks.contains c
 
 example : Inj P0.Hp ∧ Inj P0.vhash ∧ Inj P0.H := ⟨fun _ _ h => h, fun _ _ h => h, fun _ _ h => h⟩
 example : Respects P0.an Eq := respects_of_function analyze0
+example : S0.Covers := by decide
+example : KeyDetermines S0 P0 :=
+  key_determines_inputs S0 P0 (by decide) (fun _ _ h => h) (fun _ _ h => h) (fun _ _ h => h)
 -- the hypotheses of `cache_inv` / `warm_eq_cold` are met by a cache that is not empty:
-example : (cacheAfter P0 [w0]).1.vet.length = 2 ∧ (cacheAfter P0 [w0]).2 = 2 := by decide
+example : (cacheAfter S0 P0 [w0]).1.vet.length = 2 ∧ (cacheAfter S0 P0 [w0]).2 = 2 := by decide
 -- second run on the unchanged world: both actions hit (the nonce does not advance)
-example : (run P0 (cacheAfter P0 [w0]).1 (cacheAfter P0 [w0]).2 w0).2.1 = 2 := by decide
+example : (run S0 P0 (cacheAfter S0 P0 [w0]).1 (cacheAfter S0 P0 [w0]).2 w0).2.1 = 2 := by decide
 -- after an edit of the target only the target is analysed; the dependency is a hit although the world changed
-example : (run P0 (cacheAfter P0 [w0]).1 (cacheAfter P0 [w0]).2 w1).2.1 = 3 := by decide
+example : (run S0 P0 (cacheAfter S0 P0 [w0]).1 (cacheAfter S0 P0 [w0]).2 w1).2.1 = 3 := by decide
 -- revert to an earlier state: everything hits
-example : (run P0 (cacheAfter P0 [w1, w0]).1 (cacheAfter P0 [w1, w0]).2 w0).2.1 = 3 := by decide
+example : (run S0 P0 (cacheAfter S0 P0 [w1, w0]).1 (cacheAfter S0 P0 [w1, w0]).2 w0).2.1 = 3 := by decide
 -- changed Checks: everything hits, the report changes through the filter only
-example : (run P0 (cacheAfter P0 [w0]).1 (cacheAfter P0 [w0]).2 w2).2.1 = 2 := by decide
-example : report sel0 (run P0 (cacheAfter P0 [w0]).1 (cacheAfter P0 [w0]).2 w2).2.2 =
-    [⟨"SA1019", "m/depmodule"⟩, ⟨"ST1003", "cfgA"⟩, ⟨"SA1019", "m/appmodule"⟩, ⟨"ST1003", "cfgA"⟩] := by decide
+example : (run S0 P0 (cacheAfter S0 P0 [w0]).1 (cacheAfter S0 P0 [w0]).2 w2).2.1 = 2 := by decide
+-- a changed configuration field that is read: the target misses
+example : (run S0 P0 (cacheAfter S0 P0 [w0]).1 (cacheAfter S0 P0 [w0]).2 w3).2.1 = 3 := by decide
+-- a changed environment variable that is neither read nor hashed: everything hits
+example : (run S0 P0 (cacheAfter S0 P0 [w0]).1 (cacheAfter S0 P0 [w0]).2 w4).2.1 = 2 := by decide
+example : report sel0 (run S0 P0 (cacheAfter S0 P0 [w0]).1 (cacheAfter S0 P0 [w0]).2 w2).2.2 =
+    [⟨"SA1019", "m/depmodule"⟩, ⟨"ST1013", "Initialisms=ID;DotImportWhitelist=nil;HTTPStatusCodeWhitelist=200,404;"⟩,
+     ⟨"SA1019", "m/appmodule"⟩, ⟨"ST1013", "Initialisms=ID;DotImportWhitelist=nil;HTTPStatusCodeWhitelist=200,404;"⟩] := by decide
 example : w0.eraseChecks = w2.eraseChecks := by decide
 -- warm = cold on this instance, as an instance of the theorem
-example : report sel0 (run P0 (cacheAfter P0 [w1, w0]).1 (cacheAfter P0 [w1, w0]).2 w2).2.2 =
-    report sel0 (run P0 Cache.empty 0 w2).2.2 :=
-  warm_eq_cold P0 Eq (fun _ _ h => h) (fun _ _ h => h) (fun _ _ h => h) (respects_of_function analyze0) sel0 _ _ _
--- the key is sensitive to every modelled input (here: the Go version)
-example : key P0 (mkInputs w0 leaf []) ≠ key P0 (mkInputs { w0 with goVersion := "1.3" } leaf []) := by decide
+example : report sel0 (run S0 P0 (cacheAfter S0 P0 [w1, w3, w0]).1 (cacheAfter S0 P0 [w1, w3, w0]).2 w2).2.2 =
+    report sel0 (run S0 P0 Cache.empty 0 w2).2.2 :=
+  warm_eq_cold S0 P0 Eq (by decide) (fun _ _ h => h) (fun _ _ h => h) (fun _ _ h => h) (respects_of_function analyze0) sel0 _ _ _
+-- … and for a post-processing that is not a per-package filter (counts problems across packages)
+example : (fun (_ : World) (l : List (Pkg × Loaded)) => (l.flatMap (reportL sel0)).length)
+      w3 ((run S0 P0 (cacheAfter S0 P0 [w0]).1 (cacheAfter S0 P0 [w0]).2 w3).2.2.map strip) = 4 := by decide
+-- the key is sensitive to every modelled input (here: the Go version, a hashed config field)
+example : keyOf S0 P0 w0 leaf [] ≠ keyOf S0 P0 { w0 with goVersion := "1.3" } leaf [] := by decide
+example : keyOf S0 P0 w0 (top "f2" cfgA []) [] ≠ keyOf S0 P0 w0 (top "f2" cfgB []) [] := by decide
+
+-- every required tag is emitted by the key of an action that has a dependency
+example : ∀ t ∈ requiredTags, t ∈ (serialise (toKey P0 (mkInputs S0.cfgHashed S0.envHashed w0 (top "f2" cfgA []) [("m/dep", "v")]))).map KComp.tag :=
+  serialise_emits_required _ (by decide)
+
+/-- The shape of a key whose config part is a hand-written literal that forgets
+`HTTPStatusCodeWhitelist` (analyzers still read it). -/
+def Sbad : Shape := { S0 with cfgHashed := ["Initialisms", "DotImportWhitelist"] }
+
+example : ¬ Sbad.Covers := by decide
+-- the stale entry is served: no analysis happens although a field that is read changed
+example : (run Sbad P0 (cacheAfter Sbad P0 [w0]).1 (cacheAfter Sbad P0 [w0]).2 w3).2.1 = 2 := by decide
 
 end Example
+
+/-- **uncovered_input_breaks**: the structural obligation cannot be dropped.  There is a shape
+violating only `Covers` (a configuration field that is read but not hashed), with
+collision-free hashes and a deterministic analysis, and a two-step history — run, change only
+that field, run — whose warm run reports something else than the cold run. -/
+theorem uncovered_input_breaks :
+    ∃ (S : Shape) (P : Params Example.PD0 Example.VD0 Example.D0) (sel : List String → String → Bool)
+      (w w' : World),
+      Inj P.Hp ∧ Inj P.vhash ∧ Inj P.H ∧ Respects P.an Eq ∧ ¬ S.Covers ∧
+      report sel (run S P (cacheAfter S P [w]).1 (cacheAfter S P [w]).2 w').2.2 ≠
+        report sel (run S P Cache.empty 0 w').2.2 :=
+  ⟨Example.Sbad, Example.P0, Example.sel0, Example.w0, Example.w3,
+    fun _ _ h => h, fun _ _ h => h, fun _ _ h => h, respects_of_function Example.analyze0,
+    by decide, by decide⟩
 
 end Verif.C04
